@@ -16,6 +16,30 @@ META = {
 ARITY = {"_actualsize": 3, "_emitparse": 1, "_emitbuild": 1, "_emitseq": 2, "_emitprimitivetype": 2, "_emitfulltype": 2, "_sizeof": 2, "_parse": 3, "_build": 4}
 
 
+def arity_check(ctx, rule):
+    M = ctx.model
+    # ---------------------------------------------------------------- R5 patched closures arity
+    n = 0
+    for name, mf in M.macros().items():
+        assigned = {}
+        for node in ast.walk(mf.node):
+            if isinstance(node, ast.Assign) and len(node.targets) == 1 and isinstance(node.targets[0], ast.Attribute) \
+                    and isinstance(node.targets[0].value, ast.Name) and isinstance(node.value, ast.Name):
+                assigned[node.targets[0].attr] = (node.value.id, node)
+        defs = {d.name: d for d in ast.walk(mf.node) if isinstance(d, ast.FunctionDef) and d is not mf.node}
+        for attr, (fname, node) in assigned.items():
+            if attr in ARITY and fname in defs:
+                d = defs[fname]
+                npos = len(d.args.posonlyargs) + len(d.args.args)
+                nreq = npos - len(d.args.defaults)
+                n += 1
+                ok = nreq <= ARITY[attr] <= npos or (d.args.vararg is not None and nreq <= ARITY[attr])
+                ctx.ob(rule, FuncInfo(d, mf.relpath, qual="%s.%s" % (name, fname)), ok,
+                       "closure patched as instance attribute %s is called with %d arguments but takes %d (instance attributes are not bound, so there is no self)" % (attr, ARITY[attr], npos),
+                       key="arity %s" % attr, node=d)
+
+
+
 def run(ctx):
     M = ctx.model
     S = summariser(ctx)
@@ -223,25 +247,7 @@ def run(ctx):
                 lazy, meth, eager, meth, " modulo discard" if dd else "", len(a), len(b), len(a ^ b)), key="clone %s" % meth)
     ctx.floor("C16.R4", 4)
 
-    # ---------------------------------------------------------------- R5 patched closures arity
-    n = 0
-    for name, mf in M.macros().items():
-        assigned = {}
-        for node in ast.walk(mf.node):
-            if isinstance(node, ast.Assign) and len(node.targets) == 1 and isinstance(node.targets[0], ast.Attribute) \
-                    and isinstance(node.targets[0].value, ast.Name) and isinstance(node.value, ast.Name):
-                assigned[node.targets[0].attr] = (node.value.id, node)
-        defs = {d.name: d for d in ast.walk(mf.node) if isinstance(d, ast.FunctionDef) and d is not mf.node}
-        for attr, (fname, node) in assigned.items():
-            if attr in ARITY and fname in defs:
-                d = defs[fname]
-                npos = len(d.args.posonlyargs) + len(d.args.args)
-                nreq = npos - len(d.args.defaults)
-                n += 1
-                ok = nreq <= ARITY[attr] <= npos or (d.args.vararg is not None and nreq <= ARITY[attr])
-                ctx.ob("C16.R5", FuncInfo(d, mf.relpath, qual="%s.%s" % (name, fname)), ok,
-                       "closure patched as instance attribute %s is called with %d arguments but takes %d (instance attributes are not bound, so there is no self)" % (attr, ARITY[attr], npos),
-                       key="arity %s" % attr, node=d)
+    arity_check(ctx, "C16.R5")
     ctx.floor("C16.R5", 20)
 
     # positive control for R1: relative skip after a moving probe
